@@ -928,7 +928,11 @@ where
 
     /// Get the total number of blobs stored
     fn len(&self) -> usize {
-        self.stats.blob_stats.blob_count
+        // count live records directly: the statistics are optional (enable_statistics)
+        self.record_to_blob_map
+            .iter()
+            .filter(|&&blob_id| blob_id != usize::MAX)
+            .count()
     }
 
     /// Flush any pending operations to storage
